@@ -184,6 +184,78 @@ def run(c, prog, ctx):
     ob("O4.address-parsers", "from_bech32 uses SegwitHrpstring::new of blech32 (blinded) and of the bech32 crate (unblinded)",
        sorted(ctor) == ["bech32::primitives::decode::SegwitHrpstring::<'s>::new", "blech32::decode::SegwitHrpstring::<'s>::new"], "constructors %s" % ctor, fb.where(), fb.path)
 
+    # O6: the one decidable part of the human-readable-part clause. HRPs are compared case-insensitively and the checksum is
+    # computed over the lower-cased HRP, so changing the case of HRP letters must be caught elsewhere: by the mixed-case rule
+    # over the WHOLE string (HRP and data part). Per-character decision table of check_characters.
+    from itertools import product as _product
+    from .c15 import Fn as _Fn, sh as _sh
+    CC = _Fn(prog, "blech32::decode::check_characters")
+    nm = {v: k for k, v in CC.names.items() if v}
+    hu, hl, rq = nm.get("has_upper"), nm.get("has_lower"), nm.get("req_bech32")
+    loops = [s_ for s_ in CC.L if s_[0] == "while"]
+    good = bool(hu and hl and rq and len(loops) == 1)
+    det = "state variables %s" % CC.names
+    if good:
+        def walk(stmts, val, sets):
+            for s_ in stmts:
+                if s_[0] == "set" and s_[1][0] == "var":
+                    if s_[1][1] == rq and s_[2][0] == "const":
+                        val = dict(val, req=s_[2][2])
+                    sets.setdefault(s_[1][1], _sh(s_[2]))
+                elif s_[0] == "if":
+                    cs = _sh(s_[1])
+                    if cs == "var('%s',)" % rq:
+                        v = val["req"]
+                    elif "is_ascii_uppercase" in cs:
+                        v = val["upper"]
+                    elif "is_ascii_lowercase" in cs:
+                        v = val["lower"]
+                    elif "Fe32::from_char" in cs:
+                        v = 0          # the character is in the alphabet (otherwise the function returns an error)
+                    elif " Eq 49)" in cs:
+                        v = val["sep"]
+                    elif "is_none" in cs:
+                        v = val["first_sep"]
+                    else:
+                        sets["?"] = cs
+                        return val
+                    arm = "=%d" % v if "=%d" % v in s_[2] else "otherwise"
+                    if arm in s_[2]:
+                        val = walk(s_[2][arm], val, sets)
+                elif s_[0] == "ret":
+                    sets["ret"] = _sh(s_[1])
+            return val
+        bad = []
+        for req, upper, lower, sep, first in _product([0, 1], repeat=5):
+            if upper and lower or (sep and (upper or lower)):
+                continue
+            sets = {}
+            walk(loops[0][3], {"req": req, "upper": upper, "lower": lower, "sep": sep, "first_sep": first}, sets)
+            got = (sets.get(hu) == "1", sets.get(hl) == "1")
+            if "?" in sets or got != (bool(upper), bool(lower)):
+                bad.append(((req, upper, lower, sep, first), sets))
+        # final decision: both flags set => MixedCase
+        tail = CC.L[CC.L.index(loops[0]) + 1:]
+        fin = {}
+        for a, b_ in _product([0, 1], repeat=2):
+            def dec(stmts):
+                for s_ in stmts:
+                    if s_[0] == "ret":
+                        return _sh(s_[1])
+                    if s_[0] == "if":
+                        cs = _sh(s_[1])
+                        v = a if cs == "var('%s',)" % hu else b_ if cs == "var('%s',)" % hl else 1
+                        arm = "=%d" % v if "=%d" % v in s_[2] else "otherwise"
+                        r = dec(s_[2].get(arm, []))
+                        if r:
+                            return r
+                return None
+            fin[(a, b_)] = dec(tail)
+        okf = all(("MixedCase" in (fin[k] or "")) == (k == (1, 1)) for k in fin)
+        good = not bad and okf
+        det = "per-character deviations %s; final table %s" % (bad[:2], fin)
+    ob("O6.mixed-case-whole-string", "every letter of the string, HRP included, feeds the mixed-case test; upper and lower together => MixedCase", good, det, CC.f.where(), CC.f.path)
+
     # side check on the dependency's published constants (not from /repo; informational obligation)
     syn, dup = single_error_syndromes(BECH32_GEN, 6, 7 + 1 + 64 + 6)
     ob("O5.bech32-dependency", "bech32/bech32m (dependency constants as published in BIP173): single-error syndromes distinct up to 78 symbols", dup is None,
@@ -197,8 +269,10 @@ def run(c, prog, ctx):
         "codeword to a codeword of the same variant; O3 no pattern of weight <= 2 has the syndrome residue(blech32) xor "
         "residue(blech32m), hence changing the version character cannot move a string into the other variant; O4 the decoder "
         "feeds the HRP and every data character to the engine and reaches Ok only through the residue comparison, and addresses "
-        "are only built through that decoder. The human-readable part clause of C17 is NOT decided: corrupting the HRP changes "
-        "which network/variant is tried and rejection there is probabilistic.")
+        "are only built through that decoder; O6 the mixed-case test covers every letter of the string including the HRP (so "
+        "re-casing HRP letters, which neither the case-insensitive HRP match nor the lower-cased checksum input would notice, is "
+        "rejected). The rest of the human-readable part clause of C17 is NOT decided: replacing HRP characters by other characters "
+        "changes which network/variant is tried and rejection there is probabilistic.")
     c.assume("bech32 0.11 checksum::Engine implements the standard polymod over GENERATOR_SH (input_hrp, input_fe, residue)")
     c.assume("unblinded addresses use the bech32 crate's decoder and constants (dependency, BIP173/BIP350 guarantees)")
     c.extra_cov.update({
